@@ -78,6 +78,30 @@ Theorem C10_two_byte_headers :
     end.
 Proof. exact two_byte_headers. Qed.
 
+(* The same classification spelled out without the reference parser: for every header h0 h1 and remainder, either the
+   opcode (low four bits of h0) is reserved and the answer is InvalidOpcode; or it is one of the six defined opcodes
+   and, with extn = 0/2/8 bytes of extended length (selected by the low seven bits of h1), keyn = 0/4 key bytes
+   (selected by the top bit of h1) and n the 7-bit or big-endian extended length: fewer than extn + keyn + n bytes
+   after the header give ReadError, otherwise the frame carries exactly the header's bits, length n, the key that was
+   on the wire (zero if none) and the next n bytes XORed with key[i mod 4], and exactly the bytes after them remain. *)
+Theorem C10_header_classes :
+  forall (h0 h1 : N) (rem : bytes) (cs : chunks),
+    h0 < 256 -> h1 < 256 -> wf_chunks cs -> concat cs = h0 :: h1 :: rem ->
+    let len7 := h1 mod 128 in
+    let extn := if len7 =? 126 then 2 else if len7 =? 127 then 8 else 0 in
+    let keyn := if 128 <=? h1 then 4 else 0 in
+    let n := if extn =? 0 then len7 else unsigned_be (firstn (N.to_nat extn) rem) in
+    let key := if 128 <=? h1 then key_of_list (firstn 4 (skipn (N.to_nat extn) rem)) else zero_key in
+    (In (h0 mod 16) [3; 4; 5; 6; 7; 11; 12; 13; 14; 15] /\ decode cs = Err InvalidOpcode) \/
+    (exists op, rfc_opcode op = h0 mod 16 /\
+       ((blen rem < extn + keyn + n /\ decode cs = Err ReadError) \/
+        (extn + keyn + n <= blen rem /\
+         exists cs', decode cs =
+                     Ok (mkFrame (128 <=? h0) (64 <=? h0 mod 128) (32 <=? h0 mod 64) (16 <=? h0 mod 32) op (128 <=? h1) n key
+                                 (unmask key (firstn (N.to_nat n) (skipn (N.to_nat (extn + keyn)) rem))), cs')
+                     /\ concat cs' = skipn (N.to_nat (extn + keyn + n)) rem /\ wf_chunks cs'))).
+Proof. exact header_classes. Qed.
+
 (* the sweep behind it: on all 65 536 headers the shifts and masks of the code read the same fields as the
    division/remainder picture of the RFC *)
 Theorem C10_all_headers_fields :
@@ -163,6 +187,7 @@ Print Assumptions C10_decode_truncated.
 Print Assumptions C10_reserved_opcode_rejected.
 Print Assumptions C10_valid_opcode_not_rejected.
 Print Assumptions C10_two_byte_headers.
+Print Assumptions C10_header_classes.
 Print Assumptions C10_all_headers_fields.
 Print Assumptions C10_decode_short.
 Print Assumptions C10_decode_safe.
